@@ -129,6 +129,7 @@ pub fn replay(o: &Opts) -> Value {
     let f = std::io::BufReader::new(std::fs::File::open(&o.file).expect("behaviour file"));
     let mut rng = StdRng::seed_from_u64(o.seed);
     let (mut n, mut runs, mut cmp, mut viol, mut nontriv, mut drift) = (0u64, 0u64, 0u64, 0u64, 0u64, 0u64);
+    let mut known_c14_1 = 0u64;
     let mut files: Vec<String> = Vec::new();
     let mut samples = Vec::new();
     for line in f.lines() {
@@ -153,8 +154,31 @@ pub fn replay(o: &Opts) -> Value {
         };
         let res = catch_unwind(AssertUnwindSafe(|| {
             let mut local_bad: Option<(String, Value)> = None;
-            let (mut runs, mut cmp, mut drift) = (0u64, 0u64, 0u64);
+            let (mut runs, mut cmp, mut drift, mut c14_1) = (0u64, 0u64, 0u64, 0u64);
             let mut plain_de: Option<Result<Value, String>> = None;
+            // ---- the entry points that write into an io::Write sink deliver the same bytes as the String ones, whatever
+            // number of bytes the sink accepts per call
+            if ["c06", "c13"].contains(&o.aspect.as_str()) {
+                let root_name = root.clone().unwrap_or_else(|| "root".to_string());
+                for max in [1usize, 7] {
+                    let [a, b, c, d] = crate::family::ser_entry_points(ty, &v, &root_name, max);
+                    runs += 2;
+                    cmp += 2;
+                    let same = |x: &Result<Vec<u8>, String>, y: &Result<Vec<u8>, String>| match (x, y) {
+                        (Ok(p), Ok(q)) => p == q,
+                        (Err(_), Err(_)) => true,
+                        _ => false,
+                    };
+                    if !same(&a, &b) {
+                        note(&mut local_bad, &["c06", "c13"], "to_utf8_io_writer-differs-from-to_string", json!({"max_bytes_per_write": max,
+                            "to_string": a.as_ref().map(|x| String::from_utf8_lossy(x).into_owned()), "to_utf8_io_writer": b.as_ref().map(|x| String::from_utf8_lossy(x).into_owned())}));
+                    }
+                    if !same(&c, &d) {
+                        note(&mut local_bad, &["c06", "c13"], "write_serializable-differs-from-to_string_with_root", json!({"max_bytes_per_write": max, "root": root_name,
+                            "to_string_with_root": c.as_ref().map(|x| String::from_utf8_lossy(x).into_owned()), "write_serializable": d.as_ref().map(|x| String::from_utf8_lossy(x).into_owned())}));
+                    }
+                }
+            }
             for quote in 0..3u8 {
                 for indent in [None, Some((' ', 2)), Some(('\t', 1))] {
                     for expand in [false, true] {
@@ -205,21 +229,41 @@ pub fn replay(o: &Opts) -> Value {
                             if indent.is_none() && !expand && quote == 0 {
                                 plain_de = Some(d.clone());
                             }
-                            // ---- C14: from_reader over any chunking == from_str
+                            // ---- C14: from_reader over any chunking == from_str, for the document as serialized and for
+                            // equivalent UTF-8 presentations of it: with a byte-order mark, with an XML declaration naming
+                            // UTF-8, and with a namespace prefix on every element name
                             if o.aspect == "c14" {
-                                let n = doc.len();
-                                let mut cutsets: Vec<Vec<usize>> = vec![vec![1; n + 1], vec![2; n / 2 + 1], vec![3; n / 3 + 1], vec![7; n / 7 + 1]];
-                                cutsets.push(crate::gen::random_cuts(&mut rng, n));
-                                for cuts in cutsets {
-                                    let r = de_reader(ty, doc.as_bytes(), &cuts);
+                                let variants: Vec<(&str, String)> = vec![
+                                    ("plain", doc.clone()),
+                                    ("bom", format!("\u{feff}{doc}")),
+                                    ("decl", format!("<?xml version=\"1.0\" encoding=\"UTF-8\"?>{doc}")),
+                                    ("bom+decl", format!("\u{feff}<?xml version='1.0' encoding='utf-8' ?>\n{doc}")),
+                                    ("prefixed", prefixed(&doc)),
+                                ];
+                                for (vname, vdoc) in &variants {
+                                    let d = de_str(ty, vdoc);
                                     runs += 1;
-                                    let same = match (&d, &r) {
-                                        (Ok(a), Ok(b)) => a == b,
-                                        (Err(_), Err(_)) => true,
-                                        _ => false,
-                                    };
-                                    if !same {
-                                        note(&mut local_bad, &["c14"], "from_str-vs-from_reader", json!({"doc": doc, "cuts": cuts, "str": format!("{d:?}"), "reader": format!("{r:?}")}));
+                                    let n = vdoc.len();
+                                    let mut cutsets: Vec<Vec<usize>> = vec![vec![1; n + 1], vec![2; n / 2 + 1], vec![3; n / 3 + 1], vec![7; n / 7 + 1], vec![n.max(1)]];
+                                    cutsets.push(crate::gen::random_cuts(&mut rng, n));
+                                    for cuts in cutsets {
+                                        let r = de_reader(ty, vdoc.as_bytes(), &cuts);
+                                        runs += 1;
+                                        cmp += 1;
+                                        let same = match (&d, &r) {
+                                            (Ok(a), Ok(b)) => a == b,
+                                            (Err(_), Err(_)) => true,
+                                            _ => false,
+                                        };
+                                        if !same {
+                                            // known finding C14-1: the buffered reader looks for the byte-order mark only in the
+                                            // first piece; a first piece shorter than the mark leaves it in the stream
+                                            if vname.starts_with("bom") && cuts.first().map_or(false, |&c| c < 3) {
+                                                c14_1 += 1;
+                                                continue;
+                                            }
+                                            note(&mut local_bad, &["c14"], "from_str-vs-from_reader", json!({"variant": vname, "doc": vdoc, "cuts": cuts, "str": format!("{d:?}"), "reader": format!("{r:?}")}));
+                                        }
                                     }
                                 }
                             }
@@ -228,14 +272,15 @@ pub fn replay(o: &Opts) -> Value {
                 }
             }
             let _ = plain_de;
-            (local_bad, runs, cmp, drift)
+            (local_bad, runs, cmp, drift, c14_1)
         }));
         match res {
-            Ok((lb, r, c, d)) => {
+            Ok((lb, r, c, d, k)) => {
                 bad = lb;
                 runs += r;
                 cmp += c;
                 drift += d;
+                known_c14_1 += k;
             }
             Err(p) => {
                 let msg = p.downcast_ref::<String>().cloned().unwrap_or_default();
@@ -268,7 +313,33 @@ pub fn replay(o: &Opts) -> Value {
     if drift > 0 {
         d.insert("serializer-accepts-or-rejects-differently-from-model".into(), json!(drift));
     }
-    json!({"behaviours": n, "runs": runs, "comparisons": cmp, "nontrivial": nontriv, "violations": viol, "samples": samples, "drift": d})
+    let mut devs = Map::new();
+    if known_c14_1 > 0 {
+        devs.insert("C14-1".into(), json!(known_c14_1));
+    }
+    json!({"behaviours": n, "runs": runs, "comparisons": cmp, "nontrivial": nontriv, "violations": viol, "samples": samples, "drift": d, "devs_used": devs})
+}
+
+/// the same document with the namespace prefix `ns:` on every element name (the serializer's output contains `<` only as
+/// the first byte of a tag)
+fn prefixed(doc: &str) -> String {
+    let mut out = String::with_capacity(doc.len() + 16);
+    let b = doc.as_bytes();
+    let mut i = 0;
+    while i < b.len() {
+        if b[i] == b'<' && i + 1 < b.len() && b[i + 1] == b'/' {
+            out.push_str("</ns:");
+            i += 2;
+        } else if b[i] == b'<' && i + 1 < b.len() && b[i + 1] != b'!' && b[i + 1] != b'?' {
+            out.push_str("<ns:");
+            i += 1;
+        } else {
+            let ch = doc[i..].chars().next().unwrap();
+            out.push(ch);
+            i += ch.len_utf8();
+        }
+    }
+    out
 }
 
 pub fn rerun(path: &str) -> bool {
